@@ -272,6 +272,12 @@ fn minimise(bin: &str, scenario: &str, seed: u64, tier: &str, mut plan: Value, p
         let mut progress = false;
         let nsteps = plan["steps"].as_array().map(|a| a.len()).unwrap_or(0);
         for i in (0..nsteps).rev() {
+            // steps that establish what an oracle presupposes (quiescence before a "clean" observation, settling time)
+            // are part of the judgement, not of the workload: they stay
+            let t = plan["steps"][i]["t"].as_str().unwrap_or("");
+            if matches!(t, "wait_polls" | "drain_faults" | "observe" | "sleep" | "wait_status_calls" | "wait_latched" | "liveness_mark" | "liveness_check" | "collect_status" | "audit_map_probe" | "clear_faults") {
+                continue;
+            }
             let mut c = plan.clone();
             c["steps"].as_array_mut().unwrap().remove(i);
             if try_plan(&c, budget) {
@@ -281,7 +287,31 @@ fn minimise(bin: &str, scenario: &str, seed: u64, tier: &str, mut plan: Value, p
         }
         let nsteps = plan["steps"].as_array().map(|a| a.len()).unwrap_or(0);
         for i in 0..nsteps {
-            for list in ["conns", "ops", "events", "files"] {
+            for list in ["conns", "ops", "events", "files", "cycles", "queries"] {
+                // delta debugging over the list: drop halves, quarters, ... before single elements
+                let mut chunk = plan["steps"][i][list].as_array().map(|a| a.len()).unwrap_or(0) / 2;
+                while chunk >= 2 {
+                    let mut start = 0usize;
+                    loop {
+                        let len = plan["steps"][i][list].as_array().map(|a| a.len()).unwrap_or(0);
+                        if start >= len || len <= 1 || *budget == 0 {
+                            break;
+                        }
+                        let end = (start + chunk).min(len);
+                        if end - start >= len {
+                            break;
+                        }
+                        let mut c = plan.clone();
+                        c["steps"][i][list].as_array_mut().unwrap().drain(start..end);
+                        if try_plan(&c, budget) {
+                            plan = c;
+                            progress = true;
+                        } else {
+                            start = end;
+                        }
+                    }
+                    chunk /= 2;
+                }
                 let n = plan["steps"][i][list].as_array().map(|a| a.len()).unwrap_or(0);
                 for j in (0..n).rev() {
                     if plan["steps"][i][list].as_array().map(|a| a.len()).unwrap_or(0) <= 1 {
@@ -398,6 +428,8 @@ fn check_main(args: &[String]) {
                     } else {
                         target_viol.push((r.clone(), v.clone()));
                     }
+                } else if known.iter().any(|k| k["status"].as_str() != Some("fixed") && v["class"].as_str().map(|c| c.contains(k["class_contains"].as_str().unwrap_or("\u{0}"))).unwrap_or(false)) {
+                    // a listed finding seen through another property's oracle: neither this check's business nor news
                 } else {
                     if std::env::var("VERIF_LIST_VIOLATIONS").is_ok() {
                         println!("LISTOTHER seed={} {} {} | {}", r["seed"], v["property"].as_str().unwrap_or(""), v["class"].as_str().unwrap_or(""), v["detail"].as_str().unwrap_or("").chars().take(300).collect::<String>());
@@ -446,7 +478,7 @@ fn check_main(args: &[String]) {
             let scen = r["scenario"].as_str().unwrap_or("").to_string();
             let bin = table::bin_for(&scen);
             let full: Value = r["full_path"].as_str().and_then(|p| std::fs::read(p).ok()).and_then(|d| serde_json::from_slice(&d).ok()).unwrap_or_else(|| r.clone());
-            let mut budget: u32 = std::env::var("VERIF_MIN_BUDGET").ok().and_then(|v| v.parse().ok()).unwrap_or(if tier == "thorough" { 200 } else { 60 });
+            let mut budget: u32 = std::env::var("VERIF_MIN_BUDGET").ok().and_then(|v| v.parse().ok()).unwrap_or(if tier == "thorough" { 300 } else { 120 });
             let mut best = full.clone();
             let mut minimised = false;
             if full.get("plan").map(|p| p.is_object()).unwrap_or(false) && budget > 0 {
